@@ -979,4 +979,27 @@ def replay_arg(viol):
               ("functor(T0, g, 255), r((arg(255, T0, last), arg(255, T0, V)), V, R), show(R)", "yes(last)"),
               ("r(arg(1, \"ab\", T), T, R), show(R)", "yes(a)"),
               ("r(arg(2, \"ab\", T), T, R), show(R)", "yes([b])")]
+    # functor/3: inspection of every kind of term, construction, errors
+    for t, w in (("foo", "yes(foo/0)"), ("42", "yes(42/0)"), ("2.5", "yes(2.5/0)"), ("f(a,b,c)", "yes(f/3)"),
+                 ("[a,b]", "yes('.'/2)"), ("\"ab\"", "yes('.'/2)"), ("[]", "yes([]/0)"), ("g(_)", "yes(g/1)")):
+        cases.append(("r(functor(%s, N, A), N/A, R), showq(R)" % t, w))
+    cases += [("B is 2^70, r(functor(B, N, A), A, R), showq(R)", "yes(0)"),
+              ("r(functor(T, foo, 3), T, R), showv(R)", "yes(foo(A,B,C))"),
+              ("r(functor(T, foo, 0), T, R), showq(R)", "yes(foo)"),
+              ("r(functor(T, 7, 0), T, R), showq(R)", "yes(7)"),
+              ("r(functor(T, '.', 2), T, R), showv(R)", "yes([A|B])"),
+              ("N is 2^60-2^60+2, r(functor(T, foo, N), T, R), showv(R)", "yes(foo(A,B))"),
+              ("r(functor(_, _, 3), x, R), showq(R)", "err(instantiation_error)"),
+              ("r(functor(_, foo, _), x, R), showq(R)", "err(instantiation_error)"),
+              ("r(functor(_, foo, a), x, R), showq(R)", "err(type_error(integer,a))"),
+              ("r(functor(_, foo, 1.5), x, R), showq(R)", "err(type_error(integer,1.5))"),
+              ("r(functor(_, foo, -1), x, R), showq(R)", "err(domain_error(not_less_than_zero,-1))"),
+              ("r(functor(_, foo, 100000), x, R), showq(R)", "err(representation_error(max_arity))"),
+              ("r(functor(_, foo(a), 1), x, R), showq(R)", "err(type_error(atomic,foo(a)))"),
+              ("r(functor(_, 7, 1), x, R), showq(R)", "err(type_error(atom,7))"),
+              ("r(functor(f(a), g, 1), x, R), showq(R)", "no"), ("r(functor(f(a), f, 2), x, R), showq(R)", "no"),
+              ("r(functor(f(a), f, 1), x, R), showq(R)", "yes(x)")]
+    prog += ("showq(X) :- writeq(X), nl.\n"
+             "showv(R) :- copy_term(R, C), term_variables(C, Vs), nv(Vs, 0), write_term(C, [numbervars(true), quoted(true)]), nl.\n"
+             "nv([], _).\nnv(['$VAR'(N)|Vs], N) :- N1 is N + 1, nv(Vs, N1).\n")
     return run_cases(prog, cases, {"model": viol}, "C23", "arg", batch=True)
